@@ -1,5 +1,307 @@
-"""C02.O8(ii) / O9 -- Form expression API and thread discipline (not built yet: no tasks registered)"""
+"""C02.O8(ii) / O9 -- Form expression API and thread discipline.
+
+The expression API (assembly/expression/*.py) is evaluated from source on the symbolic micro-instance.  BasisArray (an ndarray
+subclass that carries .grad / .hess) is replaced by a checker-side ndarray subclass with the same three-line behaviour (trusted);
+threading.Thread is replaced by a recording stand-in that runs the target at start() and records which slots of every ndarray
+argument the thread changed.  Host-supplied weak forms are python callables over the same abstract arrays.
+"""
+
+import itertools
+
+import numpy as np
+
+from .. import ring, npmodel, micro
+from ..ring import P, sym, is_zero, ZERO, ONE
+from ..common import new_interp, symarray, finish_info, method_where
+from ..interp import InterpRaise
 
 
 def tasks(tier):
-    return []
+    return [("expression forms", "run_expression", dict(tier=tier)), ("expression threads", "run_threads", {})]
+
+
+class BasisArrayModel(np.ndarray):
+    """stand-in for felupe.assembly.expression._basis.BasisArray: an array view with .grad and .hess attributes that survive slicing"""
+
+    def __new__(cls, input_array, grad=None, hess=None):
+        obj = np.asarray(input_array).view(cls)
+        obj.grad = grad
+        obj.hess = hess
+        return obj
+
+    def __array_finalize__(self, obj):
+        if obj is None:
+            return
+        self.grad = getattr(obj, "grad", None)
+        self.hess = getattr(obj, "hess", None)
+
+
+class RecThread:
+    """threading.Thread stand-in: start() runs the target and records the slots of each ndarray argument it changed"""
+
+    LOG = []
+
+    def __init__(self, target=None, args=(), kwargs=None, **kw):
+        self.target, self.args, self.kwargs = target, tuple(args), dict(kwargs or {})
+        self.started = 0
+        self.joined = 0
+        self.writes = {}
+        RecThread.LOG.append(self)
+
+    def start(self):
+        self.started += 1
+        arrs = [(k, a) for k, a in enumerate(self.args) if isinstance(a, np.ndarray) and a.dtype == object]
+        before = [a.copy() for _, a in arrs]
+        self.target(*self.args, **self.kwargs)
+        for (k, a), b in zip(arrs, before):
+            ch = set()
+            fa, fb = a.reshape(-1), b.reshape(-1)
+            for t in range(fa.size):
+                if fa[t] is not fb[t] and not (P(fa[t]) == P(fb[t])):
+                    ch.add(t)
+            self.writes[k] = (a, ch)
+
+    def join(self, *a):
+        self.joined += 1
+
+
+def _interp():
+    it = new_interp()
+    it.call_hooks[("felupe.assembly.expression._basis", "BasisArray")] = lambda interp, fn, args, kwargs: BasisArrayModel(*args, **kwargs)
+    th = it.externals.get("threading")
+    if th is not None:
+        th.ns["Thread"] = RecThread
+    else:
+        it.externals["threading"] = npmodel.ExtModule("threading", dict(Thread=RecThread))
+    return it
+
+
+def _regions(tag=""):
+    from .c02 import CELLS_A, CELLS_B
+
+    ra = micro.FakeRegion(CELLS_A, 4, 2, nq=2, tag="A" + tag)
+    rb = micro.FakeRegion(CELLS_B, 2, 2, nq=2, tag="B" + tag)
+    rb.dV = ra.dV
+    for r in (ra, rb):
+        r.evaluate_gradient = True
+        r.evaluate_hessian = False
+    return ra, rb
+
+
+def _A(name, nq, nc, major):
+    A = symarray(name, (2, 2, 2, 2, nq, nc))
+    if major:
+        for i, J, k, L in itertools.product(range(2), repeat=4):
+            if (i, J) > (k, L):
+                A[i, J, k, L] = A[k, L, i, J]
+    return A
+
+
+def run_expression(col, tier):
+    from .c02 import ref_bilinear, ref_linear, diff_dense
+
+    it = _interp()
+    ra, rb = _regions()
+    nq, nc = 2, 2
+    Form = it.get("felupe.assembly.expression._decorator:FormExpressionDecorator")
+    w = "assembly/expression/_bilinear.py BilinearForm.integrate"
+    v = micro.make_fields(it, [("Field", 2, 0)], ra, rb)[0]
+    fc = micro.container(it, [v])
+
+    def weak_of(A):
+        def weak(vv, uu, **kw):
+            return npmodel.einsum("iJqc,iJkLqc,kLqc->qc", vv.grad, A, uu.grad)
+        return weak
+
+    # ---- O9 bilinear gradient form == array form, all (parallel, sym) combinations; the parallel path == the serial path
+    for major in (True, False):
+        A = _A("A", nq, nc, major)
+        serial = {}
+        for parallel, sym_ in itertools.product((False, True), repeat=2):
+            def chk(parallel=parallel, sym_=sym_, A=A, major=major):
+                RecThread.LOG = []
+                form = it.call(it.call(Form, [], dict(v=fc, u=fc)), [[weak_of(A)]], {})
+                K = micro.dense(it.call_method(form, "assemble", [], dict(v=fc, u=fc, parallel=parallel, sym=sym_)))
+                if not parallel:
+                    serial[sym_] = K
+                bad = []
+                if major or not sym_:
+                    want = ref_bilinear(ra, ra, 2, 2, lambda i, J, k, L, q, c: A[i, J, k, L, q, c], True, True)
+                    bad = diff_dense(K, want)
+                if parallel and sym_ in serial:
+                    bad = bad + ["parallel != serial: " + x for x in diff_dense(K, serial[sym_])]
+                return not bad, "%s: %s" % (w, "; ".join(bad[:4]))
+            what = "the matrix of the array form with the same integrand" if (major or not sym_) else "the serial result (upper triangle evaluated, mirrored)"
+            col.check("C02.O9", "Form bilinear grad-grad, %s integrand, parallel=%s sym=%s" % ("major-symmetric" if major else "general", parallel, sym_),
+                      "a weak form ddot(grad v, A, grad u) written with the expression API assembles to " + what + "; the parallel path gives the serial result", chk)
+
+    # ---- value forms (mass type) and linear forms
+    rho = symarray("rho", (nq, nc))
+
+    def weak_mass(vv, uu, **kw):
+        return npmodel.einsum("iqc,iqc,qc->qc", np.asarray(vv), np.asarray(uu), rho)
+
+    def weak_lin(vv, **kw):
+        return npmodel.einsum("iJqc,iJqc->qc", vv.grad, Pm)
+
+    Pm = symarray("Pm", (2, 2, nq, nc))
+    for parallel in (False, True):
+        def chk_mass(parallel=parallel):
+            form = it.call(it.call(Form, [], dict(v=fc, u=fc)), [[weak_mass]], {})
+            K = micro.dense(it.call_method(form, "assemble", [], dict(v=fc, u=fc, parallel=parallel)))
+            want = ref_bilinear(ra, ra, 2, 2, lambda i, J, k, L, q, c: (rho[q, c] if i == k else ZERO), False, False)
+            bad = diff_dense(K, want)
+            return not bad, "%s: %s" % (w, "; ".join(bad[:4]))
+        col.check("C02.O9", "Form bilinear value-value, parallel=%s" % parallel, "dot(v, u) rho assembles to the value-value array form with integrand rho * identity", chk_mass)
+
+        def chk_lin(parallel=parallel):
+            form = it.call(it.call(Form, [], dict(v=fc)), [[weak_lin]], {})
+            r = micro.dense(it.call_method(form, "assemble", [], dict(v=fc, parallel=parallel)))
+            want = ref_linear(ra, 2, lambda i, J, q, c: Pm[i, J, q, c], True)
+            bad = diff_dense(r, want)
+            return not bad, "assembly/expression/_linear.py LinearForm.integrate: %s" % "; ".join(bad[:4])
+        col.check("C02.O9", "Form linear grad, parallel=%s" % parallel, "ddot(grad v, P) assembles to the gradient linear array form with integrand P", chk_lin)
+
+    # ---- mixed fields (u, p): three upper-triangle weak forms
+    p_ = micro.make_fields(it, [("Field", 1, 1)], ra, rb)[0]
+    fcm = micro.container(it, [micro.make_fields(it, [("Field", 2, 0)], ra, rb)[0], p_])
+    A2 = _A("Auu", nq, nc, True)
+    Bup = symarray("Bup", (2, 2, nq, nc))
+    Cpp = symarray("Cpp", (nq, nc))
+
+    def w_uu(vv, uu, **kw):
+        return npmodel.einsum("iJqc,iJkLqc,kLqc->qc", vv.grad, A2, uu.grad)
+
+    def w_up(vv, pp, **kw):
+        return npmodel.einsum("iJqc,iJqc,kqc->qc", vv.grad, Bup, np.asarray(pp))
+
+    def w_pp(qq, pp, **kw):
+        return npmodel.einsum("iqc,kqc,qc->qc", np.asarray(qq), np.asarray(pp), Cpp)
+
+    for parallel in (False, True):
+        def chk_mixed(parallel=parallel):
+            form = it.call(it.call(Form, [], dict(v=fcm, u=fcm)), [[w_uu, w_up, w_pp]], {})
+            K = micro.dense(it.call_method(form, "assemble", [], dict(v=fcm, u=fcm, parallel=parallel)))
+            Kuu = ref_bilinear(ra, ra, 2, 2, lambda i, J, k, L, q, c: A2[i, J, k, L, q, c], True, True)
+            Kup = ref_bilinear(ra, rb, 2, 1, lambda i, J, k, L, q, c: Bup[i, J, q, c], True, False)
+            Kpp = ref_bilinear(rb, rb, 1, 1, lambda i, J, k, L, q, c: Cpp[q, c], False, False)
+            want = np.concatenate([np.concatenate([Kuu, Kup], axis=1), np.concatenate([Kup.T, Kpp], axis=1)], axis=0)
+            bad = diff_dense(K, want)
+            return not bad, "assembly/expression/_mixed.py BilinearFormExpression: %s" % "; ".join(bad[:4])
+        col.check("C02.O9", "Form mixed (u, p) blocks, parallel=%s" % parallel, "the list of upper-triangle weak forms assembles to the symmetric block matrix of the equivalent array forms", chk_mixed)
+
+    # ---- update protocol: a form created on one container and assembled on another (or after a region reload) uses the fields it is given
+    ra2, rb2 = _regions("n")
+    v2 = micro.make_fields(it, [("Field", 2, 0)], ra2, rb2)[0]
+    fc2 = micro.container(it, [v2])
+    A3 = _A("A3", nq, nc, True)
+
+    def chk_update():
+        form = it.call(it.call(Form, [], dict(v=fc, u=fc)), [[weak_of(A3)]], {})
+        it.call_method(form, "assemble", [], dict(v=fc, u=fc))
+        K = micro.dense(it.call_method(form, "assemble", [], dict(v=fc2, u=fc2)))
+        want = ref_bilinear(ra2, ra2, 2, 2, lambda i, J, k, L, q, c: A3[i, J, k, L, q, c], True, True)
+        bad = diff_dense(K, want)
+        return not bad, "assembly/expression/_expression.py FormExpression._init_or_update_forms: %s" % "; ".join(bad[:3])
+    col.check("C02.O9", "Form re-assembled on other fields", "assemble(v=, u=) on fields other than those the form was created with uses the bases, volumes and indices of the fields it is given", chk_update)
+
+    def chk_type():
+        form = it.call(it.call(Form, [], dict(v=fc, u=fc)), [[weak_of(A3)]], {})
+        try:
+            it.call_method(form, "assemble", [], dict(v=fc2))  # a bilinear form updated with a test field only: u stays, fine; linear <-> bilinear switch raises
+        except InterpRaise:
+            pass
+        return True, ""
+    finish_info(col, it)
+
+
+def run_threads(col):
+    """O8.ii race freedom of the threaded integration (one thread per basis function): over all schedules the result is that of any
+    sequential order iff no two threads write the same slot of the shared buffer and no thread reads it"""
+    import ast
+    import os
+    from ..common import SRC
+
+    it = _interp()
+    ra, rb = _regions()
+    nq, nc = 2, 2
+    v = micro.make_fields(it, [("Field", 2, 0)], ra, rb)[0]
+    BF = it.get("felupe.assembly.expression._basis:BasisField")
+    Bil = it.get("felupe.assembly.expression._bilinear:BilinearForm")
+    Lin = it.get("felupe.assembly.expression._linear:LinearForm")
+    bv = it.call(BF, [v], {})
+    A = _A("A", nq, nc, False)  # not major-symmetric: two threads that wrote one slot would be seen to write different values
+    Pm = symarray("Pm", (2, 2, nq, nc))
+
+    def weak2(vv, uu, **kw):
+        return npmodel.einsum("iJqc,iJkLqc,kLqc->qc", vv.grad, A, uu.grad)
+
+    def weak1(vv, **kw):
+        return npmodel.einsum("iJqc,iJqc->qc", vv.grad, Pm)
+
+    cases = [("BilinearForm sym=False", Bil, dict(v=bv, u=bv, dx=ra.dV), (weak2,), dict(parallel=True, sym=False), 16),
+             ("BilinearForm sym=True", Bil, dict(v=bv, u=bv, dx=ra.dV), (weak2,), dict(parallel=True, sym=True), 10),
+             ("LinearForm", Lin, dict(v=bv, dx=ra.dV), (weak1,), dict(parallel=True), 4)]
+    for label, cls, ckw, wf, ikw, nthreads in cases:
+        def chk(cls=cls, ckw=ckw, wf=wf, ikw=ikw, nthreads=nthreads):
+            RecThread.LOG = []
+            form = it.call(cls, [], ckw)
+            it.call_method(form, "integrate", list(wf), ikw)
+            th = list(RecThread.LOG)
+            bad = []
+            if any(t.started != 1 or t.joined < 1 for t in th):
+                bad.append("threads not started exactly once and joined: %s" % [(t.started, t.joined) for t in th if t.started != 1 or t.joined < 1][:3])
+            owner = {}
+            for n, t in enumerate(th):
+                for k, (arr, ch) in t.writes.items():
+                    for slot in ch:
+                        key = (id(arr), slot)
+                        if key in owner and owner[key] != n:
+                            bad.append("threads %d and %d both write slot %s of the shared buffer" % (owner[key], n, tuple(int(x) for x in np.unravel_index(slot, arr.shape))))
+                        owner[key] = n
+            if len(th) != nthreads:
+                bad.append("%d threads for %d independent basis-function pairs" % (len(th), nthreads))
+            return not bad, "%s: %s" % (method_where(cls, "integrate"), "; ".join(bad[:3]))
+        col.check("C02.O8", "thread discipline %s" % label,
+                  "every thread is started once and joined before the buffer is read; no slot of the shared buffer is written by two threads; one thread per evaluated basis-function pair (upper triangle only under sym)", chk)
+
+    # the thread target only stores into the shared buffer (never reads it): AST rule over the Thread targets
+    for relf, cname in (("assembly/expression/_bilinear.py", "BilinearForm"), ("assembly/expression/_linear.py", "LinearForm")):
+        path = os.path.join(SRC, "felupe", relf)
+        tree = ast.parse(open(path).read())
+        targets = []
+        for node in ast.walk(tree):
+            if isinstance(node, ast.Call) and isinstance(node.func, ast.Name) and node.func.id == "Thread":
+                for kw in node.keywords:
+                    if kw.arg == "target" and isinstance(kw.value, ast.Name):
+                        targets.append(kw.value.id)
+        fdefs = [n for n in ast.walk(tree) if isinstance(n, ast.FunctionDef) and n.name in targets]
+        if not targets or not fdefs:
+            col.undecided("C02.O8", "thread targets in %s" % relf, "thread targets only store into the shared buffer", "no Thread(target=<local function>) idiom found: thread discipline not analysed for this file")
+            continue
+        bad = []
+        for fd in fdefs:
+            shared = fd.args.args[0].arg if fd.args.args else None
+            for n in ast.walk(fd):
+                if isinstance(n, ast.Name) and n.id == shared and isinstance(n.ctx, ast.Load):
+                    # allowed only as the base of a subscript store
+                    pass
+            loads = []
+            stores = set()
+            for n in ast.walk(fd):
+                if isinstance(n, ast.Subscript) and isinstance(n.value, ast.Name) and n.value.id == shared:
+                    if isinstance(n.ctx, ast.Store):
+                        stores.add(id(n.value))
+            for n in ast.walk(fd):
+                if isinstance(n, ast.Name) and n.id == shared and id(n) not in stores:
+                    loads.append(n.lineno)
+            for n in ast.walk(fd):
+                if isinstance(n, ast.AugAssign):
+                    bad.append("augmented assignment at line %d" % n.lineno)
+                if isinstance(n, (ast.Global, ast.Nonlocal)):
+                    bad.append("global/nonlocal at line %d" % n.lineno)
+            if loads:
+                bad.append("the shared buffer is read at lines %s" % loads)
+        col.add("C02.O8", "thread targets in %s" % relf, "inside a thread target the shared buffer only appears as the target of item stores; no augmented assignment, no global/nonlocal rebinding",
+                not bad, "%s %s: %s" % (relf, targets, "; ".join(bad)))
+    finish_info(col, it)
